@@ -1384,6 +1384,11 @@ func (g *gen) writeVTableImpl(b *buffer, n *a.Struct) error {
 
 func (g *gen) writeInitializerSignature(b *buffer, n *a.Struct, public bool) error {
 	structName := n.QID().Str(g.tm)
+	if !public {
+		// A private struct's initializer is not part of the package's API. It
+		// is only called by the initializers of the structs that embed it.
+		b.writes("static ")
+	}
 	b.printf("wuffs_base__status WUFFS_BASE__WARN_UNUSED_RESULT\n"+
 		"%s%s__initialize(\n"+
 		"    %s%s* self,\n"+
@@ -1428,7 +1433,7 @@ func (g *gen) writeInitializerImpl(b *buffer, n *a.Struct) error {
 	if !n.Classy() {
 		return nil
 	}
-	if err := g.writeInitializerSignature(b, n, false); err != nil {
+	if err := g.writeInitializerSignature(b, n, n.Public()); err != nil {
 		return err
 	}
 	b.writes("{\n")
